@@ -1,7 +1,7 @@
 (* C13 — Built-in matching functions implement their documented pattern languages.
    Only statements here; proofs are `exact <lemma>`.  Models: KeyMatch.v Glob.v IpMatch.v
    (glob_match is the function WITH fixes/C13-glob-star.diff applied); specs: km_lang, seg_lang
-   over Lit | Seg | Rest items, bindd/inst (KeyBind.v), glob_lang, block arithmetic.
+   over Lit | Seg | Rest items, bindd/inst (KeyBind.v), glob_lang, block arithmetic (both address families).
    Documented form = the boolean predicates doc2 doc3 doc5 (strings), wf2 wf4 star_last (tokens),
    citem_ok (classes), ip_doc; keys without newline (key_ok). *)
 From Coq Require Import List NArith Bool.
@@ -134,9 +134,24 @@ Theorem C13_glob_unrepaired_refuted :
 Proof. exact glob_unrepaired_refuted. Qed.
 Print Assumptions C13_glob_unrepaired_refuted.
 
-(* ---------------------------------------------------------------- ipMatch: IPv4 address in address / CIDR block *)
+(* ---------------------------------------------------------------- ipMatch: address in address / CIDR block, IPv4 and IPv6
+   parse_addr = ipaddress.ip_address, parse_network = ipaddress.ip_network(strict=False) (family, integer,
+   prefix length); W = 32 for IPv4, 128 for IPv6 *)
+
+(* whatever parses: same family and equal top n bits, as arithmetic on the parsed integers; false across families *)
+Theorem C13_ip_match_is_block_membership : forall a b f x g net n,
+  parse_addr a = Some (f, x) -> parse_network b = Some (g, net, n) ->
+  ip_match a b = Ok (fam_eqb f g && (x / 2 ^ (width g - n) =? net / 2 ^ (width g - n))).
+Proof. exact ip_iff_w. Qed.
+Print Assumptions C13_ip_match_is_block_membership.
+
+Theorem C13_ip_cross_family : forall a b f x g net n,
+  parse_addr a = Some (f, x) -> parse_network b = Some (g, net, n) -> f <> g -> ip_match a b = Ok false.
+Proof. exact ip_cross_family. Qed.
+Print Assumptions C13_ip_cross_family.
+
+(* the IPv4 statement of round 1 (its "no ':'" hypotheses are no longer needed) *)
 Theorem C13_ip_iff : forall a b x net n,
-  has_colon a = false -> has_colon b = false ->
   parse_ip4 a = Some x -> parse_net b = NetOk net n ->
   ip_match a b = Ok (x / 2 ^ (32 - n) =? net / 2 ^ (32 - n)).
 Proof. exact ip_iff. Qed.
@@ -147,10 +162,111 @@ Proof. exact ip_doc_spec. Qed.
 Print Assumptions C13_ip_doc_spec.
 
 Theorem C13_ip_bad_network : forall a b x,
-  has_colon a = false -> has_colon b = false -> parse_ip4 a = Some x -> parse_net b = NetBad ->
-  ip_match a b = Ok false.
+  parse_ip4 a = Some x -> parse_net b = NetBad -> ip_match a b = Ok false.
 Proof. exact ip_bad_network. Qed.
 Print Assumptions C13_ip_bad_network.
+
+Theorem C13_ip_not_network : forall a b f x,
+  parse_addr a = Some (f, x) -> parse_network b = None -> ip_match a b = Ok false.
+Proof. exact ip_not_network. Qed.
+Print Assumptions C13_ip_not_network.
+
+Theorem C13_ip_bad_address : forall a b, parse_addr a = None -> ip_match a b = Err EValue.
+Proof. exact ip_bad_address. Qed.
+Print Assumptions C13_ip_bad_address.
+
+(* parsed values are in range: an address of family f is below 2^W, a prefix length is at most W *)
+Theorem C13_ip_parse_ranges : forall s f x net n,
+  (parse_addr s = Some (f, x) -> x < 2 ^ width f) /\
+  (parse_network s = Some (f, net, n) -> n <= width f /\ net < 2 ^ width f).
+Proof. intros s f x net n. split; [apply parse_addr_bound|apply parse_network_ok]. Qed.
+Print Assumptions C13_ip_parse_ranges.
+
+(* IPv4 network written address/netmask or address/hostmask: the mask 2^32 - 2^(32-n) and, for 0 < n < 32,
+   the mask 2^(32-n) - 1 denote /n (so 0.0.0.0 is /0 and 255.255.255.255 is /32) *)
+Theorem C13_ip4_netmask_hostmask : forall a nt mt x net m n,
+  parse_ip4 a = Some x -> parse_ip4 nt = Some net -> parse_ip4 mt = Some m ->
+  (n <= 32 /\ m = 2 ^ 32 - 2 ^ (32 - n)) \/ (0 < n < 32 /\ m = 2 ^ (32 - n) - 1) ->
+  ip_match a (nt ++ cSLASH :: mt) = Ok (x / 2 ^ (32 - n) =? net / 2 ^ (32 - n)).
+Proof. exact ip4_mask_iff. Qed.
+Print Assumptions C13_ip4_netmask_hostmask.
+
+(* a dotted quad that is neither a netmask nor a hostmask (ones and zeroes intermingled) is no mask *)
+Theorem C13_ip4_mask_rejected : forall a nt mt x m,
+  parse_ip4 a = Some x -> parse_ip4 mt = Some m ->
+  (forall n, n <= 32 -> m <> 2 ^ 32 - 2 ^ (32 - n) /\ m <> 2 ^ (32 - n) - 1) ->
+  ip_match a (nt ++ cSLASH :: mt) = Ok false.
+Proof. exact ip4_mask_rejected. Qed.
+Print Assumptions C13_ip4_mask_rejected.
+
+Theorem C13_ip4_mask_denotes : forall m p, m < 2 ^ 32 -> prefix_from_mask_int m = Some p ->
+  p <= 32 /\ (m = 2 ^ 32 - 2 ^ (32 - p) \/ m = 2 ^ (32 - p) - 1).
+Proof. exact mask_int_sound. Qed.
+Print Assumptions C13_ip4_mask_denotes.
+
+(* IPv6 text is insensitive to spelling.  Group texts pre, then '::', then group texts post, optionally
+   ending in a dotted quad: whatever the case of the hex digits, however many leading zeros (a group text
+   is any t with parse_hextet t = Some v), wherever the '::' stands and however many (>= 1) zero groups it
+   stands for, the text denotes the integer of the groups  pre, zeros, post, quad. *)
+Theorem C13_ip6_text_insensitive : forall pre post tl vpre vpost vtl,
+  Forall2 (fun t v => parse_hextet t = Some v) pre vpre ->
+  Forall2 (fun t v => parse_hextet t = Some v) post vpost -> tail_text tl vtl ->
+  (length pre + length post + length vtl < 8)%nat ->
+  let x := compose 0 (vpre ++ repeat 0 (8 - (length pre + length post + length vtl)) ++ vpost ++ vtl) in
+  parse_ip6 (text6_dc pre (post ++ tl)) = Some x /\
+  parse_addr (text6_dc pre (post ++ tl)) = Some (V6, x) /\
+  parse_network (text6_dc pre (post ++ tl)) = Some (V6, x, 128).
+Proof.
+  intros pre post tl vpre vpost vtl H1 H2 H3 H4 x.
+  split; [exact (ip6_text_dc _ _ _ _ _ _ H1 H2 H3 H4)|exact (addr6_text_dc _ _ _ _ _ _ H1 H2 H3 H4)].
+Qed.
+Print Assumptions C13_ip6_text_insensitive.
+
+(* ... and without '::' : eight groups, the last two possibly as a dotted quad *)
+Theorem C13_ip6_text_insensitive_plain : forall gs tl vgs vtl,
+  Forall2 (fun t v => parse_hextet t = Some v) gs vgs -> tail_text tl vtl -> (length gs + length vtl = 8)%nat ->
+  parse_ip6 (join cCOLON (gs ++ tl)) = Some (compose 0 (vgs ++ vtl)) /\
+  parse_addr (join cCOLON (gs ++ tl)) = Some (V6, compose 0 (vgs ++ vtl)) /\
+  parse_network (join cCOLON (gs ++ tl)) = Some (V6, compose 0 (vgs ++ vtl), 128).
+Proof.
+  intros gs tl vgs vtl H1 H2 H3.
+  split; [exact (ip6_text_plain _ _ _ _ H1 H2 H3)|exact (addr6_text_plain _ _ _ _ H1 H2 H3)].
+Qed.
+Print Assumptions C13_ip6_text_insensitive_plain.
+
+(* group texts: case does not matter, leading zeros do not matter, '%x' renderings read back *)
+Theorem C13_ip6_hextet_case : forall t, parse_hextet (map swapcase t) = parse_hextet t.
+Proof. exact hextet_case. Qed.
+Print Assumptions C13_ip6_hextet_case.
+
+Theorem C13_ip6_hextet_leading_zero : forall t v, parse_hextet t = Some v -> (length t < 4)%nat ->
+  parse_hextet (48 :: t) = Some v.
+Proof. exact hextet_leading_zero. Qed.
+Print Assumptions C13_ip6_hextet_leading_zero.
+
+Theorem C13_ip6_hextet_render : forall v, v < 65536 ->
+  parse_hextet (hex4 v) = Some v /\ parse_hextet (hex_of v) = Some v.
+Proof. intros v H. split; [apply hex4_text|apply hex_of_text]; exact H. Qed.
+Print Assumptions C13_ip6_hextet_render.
+
+(* every 128-bit integer, written in full (8 x 4 hex digits) or in the RFC 5952 canonical form
+   (= str(IPv6Address(n)): longest run of >= 2 zero groups compressed, leftmost among equals), reads back as itself *)
+Theorem C13_ip6_render_roundtrip : forall n, n < 2 ^ 128 ->
+  parse_ip6 (render6_full n) = Some n /\ parse_ip6 (render6_compressed n) = Some n.
+Proof. intros n H. split; [apply ip6_render_full|apply ip6_render_compressed]; exact H. Qed.
+Print Assumptions C13_ip6_render_roundtrip.
+
+Theorem C13_ip6_render_match : forall x net, x < 2 ^ 128 -> net < 2 ^ 128 ->
+  ip_match (render6_compressed x) (render6_full net) = Ok (x =? net) /\
+  ip_match (render6_full x) (render6_compressed net) = Ok (x =? net).
+Proof. exact ip6_render_match. Qed.
+Print Assumptions C13_ip6_render_match.
+
+(* the answer depends on the two texts only through what they denote *)
+Theorem C13_ip_match_ext : forall a a' b b',
+  parse_addr a = parse_addr a' -> parse_network b = parse_network b' -> ip_match a b = ip_match a' b'.
+Proof. exact ip_match_ext. Qed.
+Print Assumptions C13_ip_match_ext.
 
 (* ---------------------------------------------------------------- non-vacuity *)
 (* "/foo/bar" against "/foo/*" : key_match true, key_get "bar" *)
@@ -192,4 +308,47 @@ Example C13_example_ip :
   ip_doc [49;57;50;46;49;54;56;46;50;46;49;50;51] [49;57;50;46;49;54;56;46;50;46;48;47;50;52] = true /\
   ip_match [49;57;50;46;49;54;56;46;50;46;49;50;51] [49;57;50;46;49;54;56;46;50;46;48;47;50;52] = Ok true /\
   ip_match [49;57;50;46;49;54;56;46;50;46;49;50;51] [49;57;50;46;49;54;56;46;51;46;48;47;50;52] = Ok false.
+Proof. vm_compute. repeat split; reflexivity. Qed.
+
+(* "2001:db8::1" in "2001:DB8::/32", "2001:db9::1" not; "2001:DB8::1" = "2001:0db8:0:0:0:0:0:1" = "2001:db8::0.0.0.1"
+   = 42540766411282592856903984951653826561, whose canonical form is "2001:db8::1";
+   "1.2.3.4" is not in "::ffff:1.2.3.4/96" and "::ffff:1.2.3.4" is not in "1.2.3.4/0" (families differ) *)
+Example C13_example_ip6 :
+  ip_doc [50;48;48;49;58;100;98;56;58;58;49] [50;48;48;49;58;68;66;56;58;58;47;51;50] = true /\
+  ip_match [50;48;48;49;58;100;98;56;58;58;49] [50;48;48;49;58;68;66;56;58;58;47;51;50] = Ok true /\
+  ip_match [50;48;48;49;58;100;98;57;58;58;49] [50;48;48;49;58;68;66;56;58;58;47;51;50] = Ok false /\
+  parse_ip6 [50;48;48;49;58;68;66;56;58;58;49] = Some 42540766411282592856903984951653826561 /\
+  parse_ip6 [50;48;48;49;58;48;100;98;56;58;48;58;48;58;48;58;48;58;48;58;49] = Some 42540766411282592856903984951653826561 /\
+  parse_ip6 [50;48;48;49;58;100;98;56;58;58;48;46;48;46;48;46;49] = Some 42540766411282592856903984951653826561 /\
+  render6_compressed 42540766411282592856903984951653826561 = [50;48;48;49;58;100;98;56;58;58;49] /\
+  ip_match [50;48;48;49;58;48;68;66;56;58;48;58;48;58;48;58;48;58;48;58;49] [50;48;48;49;58;100;98;56;58;58;48;46;48;46;48;46;49] = Ok true /\
+  ip_doc [49;46;50;46;51;46;52] [58;58;102;102;102;102;58;49;46;50;46;51;46;52;47;57;54] = true /\
+  ip_match [49;46;50;46;51;46;52] [58;58;102;102;102;102;58;49;46;50;46;51;46;52;47;57;54] = Ok false /\
+  ip_match [58;58;102;102;102;102;58;49;46;50;46;51;46;52] [49;46;50;46;51;46;52;47;48] = Ok false /\
+  ip_match [58;58;102;102;102;102;58;49;46;50;46;51;46;52] [58;58;102;102;102;102;58;49;48;50;58;51;48;52] = Ok true.
+Proof. vm_compute. repeat split; reflexivity. Qed.
+
+(* the hypotheses of C13_ip6_text_insensitive are satisfiable: pre = ["2001";"DB8"], post = ["00a"], tail "1.2.3.4"
+   is the text "2001:DB8::00a:1.2.3.4" *)
+Example C13_example_ip6_text :
+  Forall2 (fun t v => parse_hextet t = Some v) [[50;48;48;49]; [68;66;56]] [8193; 3512] /\
+  Forall2 (fun t v => parse_hextet t = Some v) [[48;48;97]] [10] /\
+  tail_text [[49;46;50;46;51;46;52]] [16909060 / 65536; 16909060 mod 65536] /\
+  text6_dc [[50;48;48;49]; [68;66;56]] ([[48;48;97]] ++ [[49;46;50;46;51;46;52]]) = [50;48;48;49;58;68;66;56;58;58;48;48;97;58;49;46;50;46;51;46;52].
+Proof.
+  split; [repeat constructor|]. split; [repeat constructor|]. split; [apply TT_quad; vm_compute; reflexivity|].
+  vm_compute. reflexivity.
+Qed.
+
+(* netmask, hostmask, the ambiguous masks, a non-contiguous mask *)
+Example C13_example_ip4_masks :
+  ip_match [49;48;46;49;46;50;46;51] [49;48;46;48;46;48;46;48;47;50;53;53;46;48;46;48;46;48] = Ok true /\
+  ip_match [49;49;46;49;46;50;46;51] [49;48;46;48;46;48;46;48;47;50;53;53;46;48;46;48;46;48] = Ok false /\
+  ip_match [49;48;46;49;46;50;46;51] [49;48;46;48;46;48;46;48;47;48;46;50;53;53;46;50;53;53;46;50;53;53] = Ok true /\
+  ip_match [49;49;46;49;46;50;46;51] [49;48;46;48;46;48;46;48;47;48;46;50;53;53;46;50;53;53;46;50;53;53] = Ok false /\
+  ip_match [49;49;46;49;46;50;46;51] [49;48;46;48;46;48;46;48;47;48;46;48;46;48;46;48] = Ok true /\
+  ip_match [49;48;46;48;46;48;46;49] [49;48;46;48;46;48;46;48;47;50;53;53;46;50;53;53;46;50;53;53;46;50;53;53] = Ok false /\
+  ip_match [49;48;46;49;46;50;46;51] [49;48;46;49;46;50;46;51;47;50;53;53;46;48;46;50;53;53;46;48] = Ok false /\
+  ip_doc [49;48;46;49;46;50;46;51] [49;48;46;48;46;48;46;48;47;48;46;50;53;53;46;50;53;53;46;50;53;53] = true /\
+  ip_doc [49;48;46;49;46;50;46;51] [49;48;46;49;46;50;46;51;47;50;53;53;46;48;46;50;53;53;46;48] = false.
 Proof. vm_compute. repeat split; reflexivity. Qed.
